@@ -1,6 +1,7 @@
 package checks
 
 import (
+	orbitdb "berty.tech/go-orbit-db"
 	"context"
 	"fmt"
 	"testing"
@@ -36,7 +37,7 @@ func genC08(rt *rapid.T) CaseC08 {
 	}
 	n := rapid.IntRange(2, maxOps).Draw(rt, "nops")
 	for i := 0; i < n; i++ {
-		op := LogOp{Kind: rapid.SampledFrom([]string{"add", "add", "add", "merge", "observe", "observe"}).Draw(rt, "kind"),
+		op := LogOp{Kind: rapid.SampledFrom([]string{"add", "add", "add", "add", "merge", "merge", "observe", "observe", "observe", "reopen"}).Draw(rt, "kind"),
 			W: rapid.IntRange(0, c.Writers-1).Draw(rt, "w")}
 		switch op.Kind {
 		case "add":
@@ -114,6 +115,16 @@ func execC08(c CaseC08) *Outcome {
 			if string(res.GetValue()) != string(payload) {
 				return fail("step %d: Add returned an operation with a different value", step)
 			}
+		case "reopen":
+			// a writer (even w) or the observer (odd w) restarts and reloads: its listing must come back unchanged
+			who := w
+			if op.W%2 == 1 {
+				who = obs
+			}
+			if err := cl.ReopenWith(ctx, who, -1, &orbitdb.CreateDBOptions{Replicate: &no}); err != nil {
+				return fail("step %d: replica %d cannot restart and load: %v", step, who, err)
+			}
+			o.Labels = append(o.Labels, "reopen")
 		case "merge":
 			src := op.From % c.Writers
 			if src == w {
